@@ -45,9 +45,9 @@ def r2(ctx, fs):
     if not okc:
         ctx.finding(rid, f.id, 'pairs', 'state_variable::get_current_incs must examine every pair of overlapping atoms (combinations(overlapping_atoms, 2)); found %s' % show(r)[:200], node=comb)
     body = comb['slots']['body']
-    direct = [s for s in (body.get('c') or []) if s.get('k') == 'CXXMemberCallExpr' and (s.get('callee_name') or '').endswith('::emplace_back') and canon(s['c'][0]['c'][0], env, subst=False) == 'incs']
+    direct = [s for s in (body.get('c') or []) if s.get('k') == 'CXXMemberCallExpr' and (s.get('callee_name') or '').endswith(('::emplace_back', '::push_back')) and canon(s['c'][0]['c'][0], env, subst=False) == 'incs']
     jumps = [m for m in walk_nolambda(body) if m.get('k') in ('ContinueStmt', 'ReturnStmt', 'GotoStmt') or (m.get('k') == 'BreakStmt' and not any(a.get('k') in ('SwitchStmt', 'ForStmt', 'WhileStmt', 'CXXForRangeStmt') and a is not comb for a in f.ancestors(m) if _inside(body, a)))]
-    alls = [m for m in walk(body) if m.get('k') == 'CXXMemberCallExpr' and (m.get('callee_name') or '').endswith('::emplace_back') and canon(m['c'][0]['c'][0], env, subst=False) == 'incs']
+    alls = [m for m in walk(body) if m.get('k') == 'CXXMemberCallExpr' and (m.get('callee_name') or '').endswith(('::emplace_back', '::push_back')) and canon(m['c'][0]['c'][0], env, subst=False) == 'incs']
     oku = len(direct) == 1 and len(alls) == 1 and not jumps and canon(direct[0]['c'][1], env, subst=False) == 'choices'
     ctx.instance(rid, [f.id, 'report'], {'unconditional_reports_per_pair': len(direct), 'conditional_reports': len(alls) - len(direct), 'early_exits': len(jumps)})
     if not oku:
